@@ -40,6 +40,14 @@ trait System : Sized
              || (r matches Err(e) && final(w).files == mid.files && (src_missing_kind(e) <==> !mid.files.contains_key(from@)))
             );
 
+    // (test-only in the pinned trait; contracted so that code which starts to use it is checked, not skipped)
+    fn remove_file(&mut self, path: &str, Tracked(w): Tracked<&mut World>) -> (r: Result<(), SystemError>)
+        ensures
+            exists|mid: World| #![trigger rely(*old(w), mid)] rely(*old(w), mid) && same_consts(mid, *final(w)) && final(w).dirs == mid.dirs && final(w).execs == mid.execs && (
+                (r is Ok && mid.files.contains_key(path@) && final(w).files == mid.files.remove(path@))
+             || (r is Err && final(w).files == mid.files && !mid.files.contains_key(path@))
+            );
+
     fn set_is_executable(&mut self, path: &str, executable : bool, Tracked(w): Tracked<&mut World>) -> (r: Result<(), SystemError>)
         ensures rely(*old(w), *final(w));
 }
